@@ -260,18 +260,17 @@ def guarded(chk, pid, thunk):
             raise
 
 
+REF_SIGNATURES = SR.REF_SIGNATURES
+role_names = SR.role_names
+
+
 def build_arguments(chk, repo, rule, where='TidalPy/RadialSolver/solver.pyx'):
     """what the executed driver hands to cf_build_solver for every layer: the layer's own slices of the five material arrays (pointer into the caller's array at the layer's
     first slice), the slice count, the frequency / degree / G of the solve, the layer's radial span, and the flags of that layer"""
     from ..core.interp import Arr
     mo = repo.by_path('TidalPy/RadialSolver/derivatives/odes.pyx')
     fb = mo.defs.get('cf_build_solver')
-    pnames = [a.arg for a in fb.args.args]
-    need = ['layer_type', 'is_static', 'is_incomp', 'num_slices', 'radius_array_ptr', 'density_array_ptr', 'gravity_array_ptr', 'bulk_modulus_array_ptr', 'shear_modulus_array_ptr',
-            'frequency_to_use', 'degree_l', 'G_to_use', 't_span']
-    missing = [n for n in need if n not in pnames]
-    if missing:
-        raise AnalysisError(f'cf_build_solver: parameters {missing} vanished')
+    pnames = role_names('cf_build_solver', [a.arg for a in fb.args.args])
     d = X.Decider(seed=chk.seed + 83, k=2)
     for kinds in (('solid', 'liquid-static', 'solid'), ('liquid', 'solid-static'), ('solid', 'solid', 'liquid')):
         lab = ' / '.join(kinds)
@@ -309,11 +308,9 @@ def starting_arguments(chk, repo, rule, where='TidalPy/RadialSolver/solver.pyx')
                 r = SR.run_solver(repo, kinds, ('tidal',), False, incompressible=incomp, extra_kwargs={'use_kamata': kam})
                 if len(r.start_calls) != 1:
                     chk.ob(rule, f'{lab}: starting conditions are computed once, for the innermost layer', False, f'{len(r.start_calls)} calls (raised: {getattr(r.raised, "text", None)})', where, key=f'{rule}|{lab}|count'); continue
-                a = r.start_calls[0]
-                need = ['layer_type', 'is_static', 'is_incompressible', 'use_kamata', 'frequency', 'radius', 'density', 'bulk_modulus', 'shear_modulus', 'degree_l', 'G_to_use', 'num_ys']
-                missing = [n for n in need if n not in a]
-                if missing:
-                    raise AnalysisError(f'cf_find_starting_conditions: parameters {missing} vanished')
+                actual, bound_ = r.start_calls[0]
+                roles = role_names('cf_find_starting_conditions', actual)
+                a = {role: bound_.get(act) for role, act in zip(roles, actual)}
                 bad = []
                 if a['layer_type'] != SR.KIND[kinds[0]][0] or bool(a['is_static']) != SR.KIND[kinds[0]][1]: bad.append(f'flags ({a["layer_type"]}, {a["is_static"]}) are not those of the innermost layer')
                 if bool(a['is_incompressible']) != incomp: bad.append('incompressibility flag is not that of the innermost layer')
@@ -338,7 +335,7 @@ def entry_point_arguments(chk, repo, rule, where='TidalPy/RadialSolver/solver.py
     fw = ms.defs.get('radial_solver'); fc = ms.defs.get('cf_radial_solver')
     if not isinstance(fw, _ast.FunctionDef) or not isinstance(fc, _ast.FunctionDef):
         raise AnalysisError('radial_solver / cf_radial_solver vanished')
-    cparams = [a.arg for a in fc.args.args]
+    cparams = role_names('cf_radial_solver', [a.arg for a in fc.args.args])
     rec = {}
 
     def call_hook(itp, f, args, kwargs, e, fr):
